@@ -586,11 +586,6 @@ func (a *RangeArg) Parse() error {
 	str := string(a.arg)
 	ErrInval := errors.New("invalid argument: " + str)
 
-	/* collapse string */
-	str = strings.Replace(str, " ", "", -1)
-	str = strings.Replace(str, "\t", "", -1)
-	str = strings.Replace(str, "\n", "", -1)
-
 	/* range-part *(optsep "|" optsep range-part) */
 	rparts := strings.Split(str, "|")
 	a.rbs = make([]argRb, 0, len(rparts))
@@ -598,6 +593,10 @@ func (a *RangeArg) Parse() error {
 		/* range-boundary [optsep ".." optsep range-boundary] */
 		var r argRb
 		rbs := strings.Split(v, "..")
+		for i := range rbs {
+			// optsep around a boundary; blanks inside one are not allowed
+			rbs[i] = strings.Trim(rbs[i], " \t\r\n")
+		}
 		switch len(rbs) {
 		case 1:
 			switch rbs[0] {
@@ -648,11 +647,6 @@ func (a *LengthArg) Parse() error {
 	str := string(a.arg)
 	ErrInval := errors.New("invalid argument: " + str)
 
-	/* collapse string */
-	str = strings.Replace(str, " ", "", -1)
-	str = strings.Replace(str, "\t", "", -1)
-	str = strings.Replace(str, "\n", "", -1)
-
 	/* length-part *(optsep "|" optsep length-part) */
 	lparts := strings.Split(str, "|")
 	a.lbs = make([]Lb, 0, len(lparts))
@@ -662,6 +656,10 @@ func (a *LengthArg) Parse() error {
 		var i uint64
 		var e error
 		bs := strings.Split(v, "..")
+		for i := range bs {
+			// optsep around a boundary; blanks inside one are not allowed
+			bs[i] = strings.Trim(bs[i], " \t\r\n")
+		}
 		switch len(bs) {
 		case 1:
 			switch bs[0] {
